@@ -28,6 +28,7 @@ import (
 	xdsfake "istio.io/istio/pilot/test/xds"
 	"istio.io/istio/pkg/config"
 	"istio.io/istio/pkg/config/mesh"
+	"istio.io/istio/pkg/kube/krt"
 )
 
 const debounce = 5 * time.Second
@@ -70,6 +71,9 @@ func (o object) key() string {
 
 func newServer(t *testing.T, objs []object) *simServer {
 	model.VerifResetJwksChannels()
+	// every krt collection of every control plane registers itself in this process-global handler and is
+	// never removed: a fresh handler per instance keeps a worker's memory flat over 10^5 instances
+	krt.GlobalDebugHandler = new(krt.DebugHandler)
 	var cfgs []config.Config
 	var kobjs []runtime.Object
 	for _, o := range objs {
